@@ -46,7 +46,8 @@ def confirm(m):
     os.makedirs(f"{wt}/tests", exist_ok=True)
     shutil.copy(diff[:-5] + "_demo.rs", f"{wt}/tests/demo.rs")
     rc, out = sh("cargo test --offline --test demo 2>&1 | tail -8", cwd=wt, env=env)
-    res["demo_red_with_change"] = "FAILED" in out or "panicked" in out or "test failed" in out
+    # (a demonstration that no longer COMPILES with the change - e.g. a type lost Send/Sync - is red as well)
+    res["demo_red_with_change"] = "FAILED" in out or "panicked" in out or "test failed" in out or "could not compile `jsonpath-rust` (test \"demo\")" in out
     res["demo_out_with"] = out[-300:]
     sh(["git", "apply", "-R", diff], cwd=wt)
     rc, out = sh("cargo test --offline --test demo 2>&1 | tail -5", cwd=wt, env=env)
